@@ -14,6 +14,7 @@ IMPORTS = ["SodiumModel.Properties.C05", "SodiumModel.Properties.C05LowOrder"] i
 THEOREMS = THEOREMS + vcore.theorems_in("SodiumModel/Properties/C05Fe51.lean", ['add_spec', 'sub_spec', 'sub_wrong_on_huge_g', 'mul_no_overflow', 'carry_chain_spec', 'mul_spec', 'mul_wrong_beyond_loose', 'sq_eq_mul', 'sq_spec', 'sq2_spec', 'sq2_wrong_on_loose', 'mul32_spec', 'neg_spec', 'cswap_spec', 'cswap_out_of_contract', 'cmov_spec', 'cmov_variants_differ_out_of_contract', 'frombytes_spec', 'reduce_spec', 'tobytes_spec', 'isnegative_spec', 'iszero_spec', 'invert_spec', 'spec_inv_eq_pow', 'fe51_refines', 'fe51_no_single_relation', 'refines_is_TL', 'ladder_any_field_TL', 'x25519_fe51_eq_ref10', 'x25519_fe51_eq_rfc7748', 'x25519_fe51_clamp', 'x25519_fe51_general', 'fe51_eq_spec_ladder'], "Sodium.C05Fe51")
 IMPORTS = IMPORTS + ["SodiumModel.Properties.C05Ladder", "SodiumModel.Properties.C05Fe51"]
 TABLES = ['x25519_blocklist_eq']      # Tie B: kernel-checked `table regenerated from the source = model table`
+FINGERPRINTS = "C05"     # Tie B: pinned source text of the hand-transcribed limb code (tools/fingerprint.py)
 RULE = ("random (scalar, point) pairs; the low-order / non-canonical u-coordinates (0, 1, the two order-8 points, p-1, p, p+1) with either top bit; u in p-k..p+k and "
         "2^255-k..2^255-1; scalars covering all 32 clamp-bit patterns; limb-structured field elements (all-ones 51-bit and 25.5-bit limbs); key exchange: both sides computed "
         "and required cross-equal; box in both cipher variants with all call forms; seeded key pairs; backends: AVX (sandy2x) / ref10 fe51 / fe25.5 / portable")
